@@ -8,6 +8,7 @@ import (
 	"errors"
 	"fmt"
 	"strings"
+	"time"
 
 	"github.com/libsv/go-bk/bec"
 	"github.com/libsv/go-bk/crypto"
@@ -430,6 +431,12 @@ func c04Judge(c *mon.Ctx, in *c04Case) {
 			tx.Inputs[j].UnlockingScript = saved[j]
 		}
 	}
+	// The context the signer is given: live, already cancelled, or past its deadline. Signing is
+	// local computation; a library may refuse to start under a context that is over (its error is
+	// then the context's), but whatever it returns without error is a signature like any other.
+	sctx, ctxName, ctxCancel := c04Ctx(in.MutSeed)
+	defer ctxCancel()
+	c.Count("context:" + ctxName)
 	var serr error
 	switch in.Via {
 	case "FillAllInputs":
@@ -437,7 +444,7 @@ func c04Judge(c *mon.Ctx, in *c04Case) {
 			c.Count("skipped:malformed-case")
 			return
 		}
-		if !c.Try("bt.(*Tx).FillAllInputs", func() { serr = tx.FillAllInputs(context.Background(), c04GetterFor(priv)) }) {
+		if !c.Try("bt.(*Tx).FillAllInputs", func() { serr = tx.FillAllInputs(sctx, c04GetterFor(priv)) }) {
 			return
 		}
 	case "UnlockingScript":
@@ -449,7 +456,7 @@ func c04Judge(c *mon.Ctx, in *c04Case) {
 		}
 		if !c.Try("unlocker.(*Simple).UnlockingScript", func() {
 			var us *bscript.Script
-			us, serr = (&unlocker.Simple{PrivateKey: priv}).UnlockingScript(context.Background(), tx, bt.UnlockerParams{InputIdx: uint32(i), SigHashFlags: flag})
+			us, serr = (&unlocker.Simple{PrivateKey: priv}).UnlockingScript(sctx, tx, bt.UnlockerParams{InputIdx: uint32(i), SigHashFlags: flag})
 			if serr == nil {
 				serr = tx.InsertInputUnlockingScript(uint32(i), us)
 			}
@@ -458,10 +465,14 @@ func c04Judge(c *mon.Ctx, in *c04Case) {
 		}
 	default:
 		if !c.Try("bt.(*Tx).FillInput", func() {
-			serr = tx.FillInput(context.Background(), &unlocker.Simple{PrivateKey: priv}, bt.UnlockerParams{InputIdx: uint32(i), SigHashFlags: sighash.Flag(t)})
+			serr = tx.FillInput(sctx, &unlocker.Simple{PrivateKey: priv}, bt.UnlockerParams{InputIdx: uint32(i), SigHashFlags: sighash.Flag(t)})
 		}) {
 			return
 		}
+	}
+	if serr != nil && ctxName != "live" && (errors.Is(serr, context.Canceled) || errors.Is(serr, context.DeadlineExceeded)) {
+		c.Count("context:over:signing-refused-with-the-context's-error")
+		return
 	}
 	if serr != nil {
 		c.Violationf("C04:sign-error:"+tn+":"+kind, "%s failed on a %s output: %v; unsigned tx(ext)=%s input=%d key=%x", in.Via, kind, serr, hexShort(s.Build().ExtendedBytes()), i, []byte(in.Key))
@@ -1002,4 +1013,18 @@ func init() {
 		return ""
 	}
 	mon.Register(p)
+}
+
+// c04Ctx chooses the signer's context from the case's seed: three in five are live.
+func c04Ctx(seed uint64) (context.Context, string, func()) {
+	switch (seed / 3) % 5 {
+	case 3:
+		ctx, cancel := context.WithCancel(context.Background())
+		cancel()
+		return ctx, "cancelled", cancel
+	case 4:
+		ctx, cancel := context.WithDeadline(context.Background(), time.Unix(1, 0))
+		return ctx, "deadline-passed", cancel
+	}
+	return context.Background(), "live", func() {}
 }
